@@ -566,8 +566,8 @@ def plan(tier, seed):
                               'family': gen.FAMILIES[rep % 5] if rep % 2 else None})
                 i += 1
         for term in TERMS:            # the operators on nanometre / megametre / almost-uniform / integer-typed grids
-            for rep in range(4 if q else 40):
-                cases.append({'cls': cls, 'kind': 'tel', 'term': term, 'seed': [seed, 1, ci, i], 'ufam': ['sign', 'random'][rep % 2], 'geo': ['nano', 'jitter', 'mega', 'int'][rep % 4]})
+            for rep in range(7 if q else 42):
+                cases.append({'cls': cls, 'kind': 'tel', 'term': term, 'seed': [seed, 1, ci, i], 'ufam': ['sign', 'random'][rep % 2], 'geo': ['nano', 'jitter', 'mega', 'int', 'offset', 'negative', 'wild'][rep % 7]})
                 i += 1
         for mode in ('implicit', 'explicit'):
             for scheme in SCHEMES:
@@ -598,7 +598,7 @@ def floors(agg, tier):
         for kind, need in (('steps', 20), ('open', 6)):
             if agg['cov'].get('kind:%s:%s' % (kind, cls), 0) < need:
                 out.append('kind:%s:%s < %d' % (kind, cls, need))
-    for k in ('geo:nano', 'geo:jitter', 'geo:mega', 'geo:int', 'closure:periodic', 'closure:walls', 'carry:update:explicit', 'carry:update:implicit', 'carry:rebind:explicit', 'periodic_unequal_ends:implicit', 'periodic_unequal_ends:explicit', 'steps:implicit:upwind+tvd', 'steps:explicit:central', 'reconfig:to-periodic', 'reconfig:close-dirichlet', 'reconfig:copies', 'reconfig:shared-bc'):
+    for k in ('geo:nano', 'geo:jitter', 'geo:mega', 'geo:int', 'geo:offset', 'geo:negative', 'geo:wild', 'closure:periodic', 'closure:walls', 'carry:update:explicit', 'carry:update:implicit', 'carry:rebind:explicit', 'periodic_unequal_ends:implicit', 'periodic_unequal_ends:explicit', 'steps:implicit:upwind+tvd', 'steps:explicit:central', 'reconfig:to-periodic', 'reconfig:close-dirichlet', 'reconfig:copies', 'reconfig:shared-bc'):
         if agg['cov'].get(k, 0) < 10:
             out.append('%s < 10' % k)
     return out
